@@ -71,9 +71,12 @@ def rename_params(j, notes):
     A = audit()['functions']
     for b in j['bodies']:
         rec = A.get(b['path'])
-        if rec is None or b['kind'] == 'closure' or not rec.get('params') or norm_sig(signature(b)) != rec['sig']:
+        if rec is None or b['kind'] == 'closure':
             continue
-        want = rec['params']
+        want = [v[1] for v in rec.get('variants', []) if v[0] == norm_sig(signature(b))]
+        if not want:
+            continue
+        want = want[0]
         if len(want) != b['arg_count']:
             continue
         cur = param_names(b)
@@ -372,7 +375,7 @@ def normalise(j, cfg_features):
     taken = set()
     for m in sorted(missing):
         rec = A[m]
-        cands = [n for n in new if n not in taken and norm_sig(signature(fns[n])) == rec['sig']]      # fn <-> associated fn is a move, not a new function
+        cands = [n for n in new if n not in taken and norm_sig(signature(fns[n])) in ([v[0] for v in rec.get('variants', [])] or [rec['sig']])]      # fn <-> associated fn is a move, not a new function
         same_name = [n for n in cands if n.split('::')[-1] == m.split('::')[-1]]
         pick = same_name if len(same_name) == 1 else cands
         if len(pick) == 1:
